@@ -36,6 +36,8 @@ MIN_REACH = {
     "matrix_readouts_judged": {"quick": 200, "thorough": 3000},
     "ill_conditioned_samples": {"quick": 100, "thorough": 2000},
     "matrix_chunks_fed_as_one_shot_iterators": {"quick": 10, "thorough": 200},
+    "sequences_fed_as_numpy_arrays": {"quick": 60, "thorough": 500},
+    "non_numbers_refused_between_feeds": {"quick": 40, "thorough": 400},
 }
 TIME_BUDGET = {"quick": 300, "thorough": 3000}
 
@@ -143,9 +145,27 @@ def run_case(ctx, case):
             rs = U.RunningStatistics()
             i = 0
             reads = 0
+            # the numbers may arrive wrapped as 0-d / one-element numpy arrays (DataArray.values of a scalar, a row of a
+            # table): same statistics, and the caller's arrays are the caller's - feeding must not write into them
+            wrapped = None
+            if case.get("pseed", len(seq)) % 4 == 1 and case["feed"] in ("single", "mixed"):
+                import numpy as np
+                wrapped = [np.asarray(x, dtype=float) if k_ % 2 else np.array([x], dtype=float)[0:1].reshape(()) for k_, x in enumerate(seq)]
+                ctx.count("sequences_fed_as_numpy_arrays")
+            refuse_at = len(seq) // 2 if (len(seq) % 5 == 3 and wrapped is None) else None
             while i < len(seq):
+                if i == refuse_at:
+                    # something that is not a number slips in (a failed measurement reported as None / text): it is refused,
+                    # and the statistics go on describing exactly the numbers fed
+                    refuse_at = None
+                    for junk in (None, "n/a"):
+                        try:
+                            rs.update(junk)
+                            ctx.violation(case, "update(%r) was accepted" % (junk,), dict(sig, oracle="refuses-non-numbers"))
+                        except Exception:
+                            ctx.count("non_numbers_refused_between_feeds")
                 if case["feed"] == "single" or (case["feed"] == "mixed" and rng.random() < 0.5):
-                    rs.update(seq[i])
+                    rs.update(seq[i] if wrapped is None else wrapped[i])
                     i += 1
                 else:
                     j = len(seq) if case["feed"] == "one_chunk" else min(len(seq), i + rng.randint(1, 60))
@@ -161,7 +181,12 @@ def run_case(ctx, case):
                     for msg in contracts.judge_running_statistics(rs, shp):
                         ctx.violation(case, "after %d of %d samples: %s" % (i, len(seq), msg), dict(sig, oracle="prefix", quantity=msg.split(" ")[0]))
                     ctx.count("prefix_readouts_judged")
-            finals.append((rs.count, rs.mean, rs.var, rs.std, rs.err))
+            if wrapped is not None:
+                changed = [k_ for k_, (a_, x_) in enumerate(zip(wrapped, seq)) if float(a_) != float(x_)]
+                if changed:
+                    ctx.violation(case, "feeding the numbers as numpy arrays changed the caller's own arrays at positions %s (e.g. %r is now %r)" % (
+                        changed[:3], seq[changed[0]], float(wrapped[changed[0]])), dict(sig, oracle="inputs-untouched"))
+            finals.append((rs.count, float(rs.mean), float(rs.var), float(rs.std), float(rs.err)))
             # final state against an independently computed exact reference (not the shadow)
             fr = [Fraction(x) for x in seq]
             mu = sum(fr) / len(fr)
